@@ -31,3 +31,26 @@ func VerifC11Crc16Check() {
 	verifAssert(Crc16("123456789") == 0x31C3, "C11.crc16.check-value")
 	verifAssert(len(crc16tab) == 256, "C11.crc16.table-size")
 }
+
+// VerifC03Crc64Step: one step of the real table-driven digest.update from an
+// arbitrary 64-bit state equals one step of bitwise CRC-64/Jones (reflected,
+// poly 0x95AC9329AC4BC9B5 reversed form 0xAD93D23594C935A9). All 2^72 pairs.
+func VerifC03Crc64Step() {
+	d := &digest{crc: verifU64("crc")}
+	b := verifU8("b")
+	want := d.crc ^ uint64(b)
+	for i := 0; i < 8; i++ {
+		mask := -(want & 1)
+		want = want>>1 ^ (0x95AC9329AC4BC9B5 & mask)
+	}
+	d.update([]byte{b})
+	verifAssert(d.crc == want, "C03.crc64.step")
+	verifAssert(len(crc64_table) == 256, "C03.crc64.table-size")
+}
+
+// VerifC03Crc64Check: published check value of CRC-64/Jones as used by Redis.
+func VerifC03Crc64Check() {
+	d := New()
+	d.Write([]byte("123456789"))
+	verifAssert(d.Sum64() == 0xE9C6D914C4B8D9CA, "C03.crc64.check-value")
+}
